@@ -129,7 +129,7 @@ def regex_family(rng, names, safe_only=False):
   n = names[int(rng.integers(len(names)))]
   forms = ['substr', 'prefix', 'interior']
   if not safe_only:
-    forms += ['exact_end', 'exact_both', 'with_sep', 'alt', 'caret']
+    forms += ['exact_end', 'exact_both', 'with_sep', 'alt', 'caret', 'digit_class', 'empty', 'empty_scope_only', 'optional_tail']
   f = str(rng.choice(forms))
   if f == 'substr':
     return re.escape(n), f
@@ -146,6 +146,14 @@ def regex_family(rng, names, safe_only=False):
     return re.escape(n) + ';', f
   if f == 'caret':
     return '^' + re.escape(n), f
+  if f == 'digit_class':
+    return re.sub(r'\\?\d+', '[0-9]+', re.escape(n)), f          # m/fc_[0-9]+ : one rule for a family of tensors
+  if f == 'empty':
+    return '', f                                                 # found in every scope
+  if f == 'empty_scope_only':
+    return '^$', f                                               # only operators whose scope is empty (no output tensor name)
+  if f == 'optional_tail':
+    return re.escape(n[:max(3, len(n) - 2)]) + '.?.?;?$', f
   m = names[int(rng.integers(len(names)))]
   return '(' + re.escape(n) + '|' + re.escape(m) + ')', 'alt'
 
